@@ -7,7 +7,7 @@
    positions and lengths, tags, any bit-field length, any interleaving).  "Present together": both
    listed by enabled_fields for one assignment of values. *)
 From Coq Require Import ZArith List Bool.
-Require Import Rig.Model.Base Rig.Model.BitField Rig.Spec.BitField Rig.Proofs.BitField.
+Require Import Rig.Generated.GenBitField Rig.Model.Base Rig.Model.BitField Rig.Spec.BitField Rig.Proofs.BitField.
 Import ListNotations.
 Open Scope Z_scope.
 
@@ -69,6 +69,30 @@ Theorem C08_field_mask_is_range :
     exists f p l, get_field (s_tree st) i fv = Some f /\ frange (s_store st) f = Some (p, l)
                   /\ m = range_mask p l.
 Proof. exact field_mask_is_range. Qed.
+
+(* Keys restricted to a tag or to one field: every selected field is read back at its position. *)
+Theorem C08_tag_value_readback :
+  forall L st fv tg v,
+    sound_layout L (s_tree st) (s_store st) -> values_fit (s_tree st) (s_store st) fv ->
+    get_value st fv (Some tg) None = Ok v ->
+    forall i f, In (i, f) (filter (has_tag (s_store st) tg) (enabled_fields (s_tree st) fv)) ->
+      exists p l x, frange (s_store st) f = Some (p, l) /\ zassoc i fv = Some x /\ read_field v p l = x.
+Proof. exact tag_value_readback. Qed.
+
+Theorem C08_field_value_readback :
+  forall L st fv i v,
+    sound_layout L (s_tree st) (s_store st) -> values_fit (s_tree st) (s_store st) fv ->
+    get_value st fv None (Some i) = Ok v ->
+    exists f p l x, get_field (s_tree st) i fv = Some f /\ frange (s_store st) f = Some (p, l)
+                    /\ zassoc i fv = Some x /\ read_field v p l = x.
+Proof. exact field_value_readback. Qed.
+
+(* UnknownTagError (Failed E_TAG) is raised exactly when no present field carries the tag. *)
+Theorem C08_unknown_tag_iff :
+  forall st fv tg,
+    get_mask st fv (Some tg) None = Failed E_TAG <->
+    filter (has_tag (s_store st) tg) (enabled_fields (s_tree st) fv) = [].
+Proof. exact unknown_tag_iff. Qed.
 
 (* "... a tag's fields, which always include the fields they depend on": in every reachable state a field
    carries the tags of every field defined under a condition naming it, so the selection made for a tag
@@ -163,6 +187,19 @@ Proof. exact explicit_start_kept. Qed.
 Theorem C08_add_field_rejects_length :
   forall st fv i l start tags, l <= 0 -> add_field st fv i (Some l) start tags = (st, Some E_VALUE).
 Proof. exact add_field_rejects_length. Qed.
+
+(* Refused operations leave no trace: a __call__ that raises (value out of range or negative, unknown or
+   unavailable field, value given twice) and an add_field that raises ValueError return the state they
+   were given -- in particular no max_value, tag or tree change survives a refused call, whatever came
+   earlier in its keyword list. *)
+Theorem C08_call_refused_no_effect :
+  forall st fv kw st' k, call st fv kw = (st', Some k) -> st' = st.
+Proof. exact call_refused_no_effect. Qed.
+
+Theorem C08_add_field_refused_no_effect :
+  forall st fv i len start tags st',
+    add_field st fv i len start tags = (st', Some E_VALUE) -> st' = st.
+Proof. exact add_field_refused. Qed.
 
 (* the code as found (before fix 27665d7) accepted a field at a negative position *)
 Theorem C08_add_field_negative_start_orig_refuted :
